@@ -17,6 +17,8 @@ use std::sync::Arc;
 use std::sync::atomic::{AtomicUsize, Ordering};
 use std::time::Duration;
 use tokio::io::{AsyncReadExt, AsyncWriteExt};
+#[allow(unused_imports)]
+use std::net::Ipv4Addr as _Ipv4;
 use tokio::net::{TcpListener, TcpStream};
 
 pub struct Relay {
@@ -223,6 +225,75 @@ async fn sequential_with_pauses(rep: &mut Report, n: u32, min_idle: usize) {
     w.client.stop_session_pool_cleanup().await;
 }
 
+/// min_idle 0: two overlapping requests; the short one finishes early and its session expires, the long one
+/// finishes later; a request that follows the long one within its idle timeout must reuse that session
+/// (a session released a moment ago is not expired, whatever its creation order)
+async fn overlap_then_sequential(rep: &mut Report, long_first: bool) {
+    let pool = SessionPoolConfig { check_interval: Duration::from_millis(150), idle_timeout: Duration::from_millis(900), min_idle_sessions: 0 };
+    let Some(w) = build_world(pool).await else {
+        rep.inconclusive("cannot build world");
+        return;
+    };
+    let w = Arc::new(w);
+    // the long request: connect, keep the tunnel open for 1.6 s, then finish
+    let long = {
+        let w = w.clone();
+        move || {
+            let w = w.clone();
+            async move {
+                let ip = netkit::uniq_ip(58, 1);
+                let (mut s, code) = netkit::socks5_connect(&w.socks, &SocksDest::V4(ip, w.target_port), Duration::from_secs(20)).await?;
+                if code != 0 {
+                    return Err(format!("socks reply {code}"));
+                }
+                tokio::time::sleep(Duration::from_millis(1600)).await;
+                s.write_all(b"long").await.map_err(|e| e.to_string())?;
+                let mut b = [0u8; 4];
+                tokio::time::timeout(Duration::from_secs(10), s.read_exact(&mut b)).await.map_err(|_| "echo timeout".to_string())?.map_err(|e| e.to_string())?;
+                s.shutdown().await.map_err(|e| e.to_string())?;
+                let mut rest = Vec::new();
+                let _ = tokio::time::timeout(Duration::from_secs(5), s.read_to_end(&mut rest)).await;
+                Ok::<(), String>(())
+            }
+        }
+    };
+    let (a, b) = if long_first {
+        let l = tokio::spawn(long());
+        tokio::time::sleep(Duration::from_millis(100)).await;
+        let sres = socks_request(&w, 6001).await;
+        (l.await.unwrap_or(Err("join".into())), sres)
+    } else {
+        let w2 = w.clone();
+        let sh = tokio::spawn(async move {
+            tokio::time::sleep(Duration::from_millis(100)).await;
+            tokio::spawn(long()).await.unwrap_or(Err("join".into()))
+        });
+        let sres = socks_request(&w2, 6002).await;
+        (sh.await.unwrap_or(Err("join".into())), sres)
+    };
+    if a.is_err() || b.is_err() {
+        rep.inconclusive(format!("overlap history: {:?} {:?}", a, b));
+        return;
+    }
+    let dials_before = w.relay.accepted.load(Ordering::SeqCst);
+    // the long request finished just now (its session was released a moment ago): two reaper ticks later,
+    // still well inside idle_timeout, the next request must find that session
+    tokio::time::sleep(Duration::from_millis(350)).await;
+    if let Err(e) = socks_request(&w, 6003).await {
+        rep.inconclusive(format!("follow-up request: {e}"));
+        return;
+    }
+    let dials_after = w.relay.accepted.load(Ordering::SeqCst);
+    rep.add("overlap_then_sequential_histories", 1);
+    let case = json!({"kind": "c13-overlap-then-sequential", "long_request_started_first": long_first, "min_idle": 0, "idle_timeout_ms": 900, "check_interval_ms": 150, "tls_connections_before_followup": dials_before, "after": dials_after});
+    rep.case(Some(hash_str(&case.to_string())));
+    rep.sample(case.clone());
+    if dials_after > dials_before {
+        rep.violate("reuse", "overlap_then_sequential+min_idle0", "non_overlapping_request_redialled", format!("two overlapping requests (the short one's session expired meanwhile), then the long one finished; a request 350 ms later (idle_timeout 900 ms) opened a new TLS connection ({dials_before} -> {dials_after}) although the long request's session had just been released"), case);
+    }
+    w.client.stop_session_pool_cleanup().await;
+}
+
 async fn bursty(rep: &mut Report, k: u32, rounds: u32) {
     let pool = SessionPoolConfig { check_interval: Duration::from_secs(3600), idle_timeout: Duration::from_secs(7200), min_idle_sessions: 1 };
     let Some(w) = build_world(pool).await else {
@@ -347,6 +418,9 @@ fn run_once(ctx: Ctx) -> Report {
         for n in if quick { vec![8u32] } else { vec![8, 40] } {
             sequential_with_failures(&mut rep, n).await;
         }
+        for long_first in [true, false] {
+            overlap_then_sequential(&mut rep, long_first).await;
+        }
         for (k, rounds) in if quick { vec![(4u32, 3u32)] } else { vec![(4, 3), (8, 5), (2, 12), (16, 3)] } {
             bursty(&mut rep, k, rounds).await;
         }
@@ -385,9 +459,9 @@ pub fn run_c12_client_level(ctx: Ctx) -> Report {
 pub fn meta() -> CheckMeta {
     CheckMeta {
         level: "exploration",
-        rule: "real Client + SOCKS5 front-end + Server over loopback TLS behind a TCP relay that counts TLS connections (accepted, open, peak). Sequential histories of 3-200 complete requests (connect, echo, application closes, target closes, front-end winds down) with min_idle in {0,1,2,5}: the number of TLS connections after each request is recorded; every request after the first must be served without a new connection, and at the end at most 1 + min_idle connections may be open. Paused histories: 4-10 sequential requests separated by 750 ms with idle_timeout 400 ms / check_interval 200 ms and min_idle >= 1 (the reaper must keep a session, so still 1 connection). Failure histories: 8-40 sequential requests of which every second one goes to a closed port (a refused open must not cost the session). Bursty histories: rounds of k in {2,4,8,16} concurrent requests, each round after the previous one finished: at most k connections in total, at most k+1 open. The reaper and keep-alive are effectively off (3600 s) so that only reuse is observed. distinct_nontrivial = distinct histories.".into(),
+        rule: "real Client + SOCKS5 front-end + Server over loopback TLS behind a TCP relay that counts TLS connections (accepted, open, peak). Sequential histories of 3-200 complete requests (connect, echo, application closes, target closes, front-end winds down) with min_idle in {0,1,2,5}: the number of TLS connections after each request is recorded; every request after the first must be served without a new connection, and at the end at most 1 + min_idle connections may be open. Paused histories: 4-10 sequential requests separated by 750 ms with idle_timeout 400 ms / check_interval 200 ms and min_idle >= 1 (the reaper must keep a session, so still 1 connection). Failure histories: 8-40 sequential requests of which every second one goes to a closed port (a refused open must not cost the session). Overlap histories (min_idle 0, idle_timeout 900 ms, check_interval 150 ms): a long and a short request overlap, the short one's session expires, the long one finishes, and a request 350 ms later must reuse its session. Bursty histories: rounds of k in {2,4,8,16} concurrent requests, each round after the previous one finished: at most k connections in total, at most k+1 open. The reaper and keep-alive are effectively off (3600 s) so that only reuse is observed. distinct_nontrivial = distinct histories.".into(),
         assumptions: vec!["a request counts as finished once the application socket saw end of stream and 60 ms have passed".into(), "healthy session: the server and relay stay up for the whole history".into()],
-        floors: vec![("sequential_requests", 15), ("burst_rounds", 3), ("paused_sequential_requests", 4), ("sequential_requests_with_failures", 8)],
+        floors: vec![("sequential_requests", 15), ("burst_rounds", 3), ("paused_sequential_requests", 4), ("sequential_requests_with_failures", 8), ("overlap_then_sequential_histories", 2)],
         exhaustive: false,
     }
 }
